@@ -21,6 +21,12 @@ def ListStop (j : Nat) : Prop :=
   ∀ tags v r, (tags = [] ∨ ∃ t r', tags = t :: r' ∧ t.cls = .closing) →
     dec j tags = .ok (v, r) → v = .list []
 
+/-- a first tag the class does not announce makes its decoder raise InvalidTag /
+    DecodingError — what `except (DecodingError, InvalidTag)` in Sequence.decode relies on -/
+def FailFast (j : Nat) : Prop :=
+  (look I j).ff = true → ∀ t r, t.cls ≠ .closing → (∀ p ∈ (look I j).first, p.matches t = false) →
+    ∃ e, dec j (t :: r) = .error e ∧ (e = .decoding ∨ e = .invalidTag)
+
 /-- structural validity of the attribute value of one element -/
 def confField (f : Field) (ov : Option Val) : Bool :=
   match ov with
@@ -29,7 +35,8 @@ def confField (f : Field) (ov : Option Val) : Bool :=
 
 /-- an omitted optional element -/
 theorem field_absent (τ : Nat) (f : Field)
-    (hsane : fieldSane env I τ f = true) (hsup : fieldSup env I f = true) (hopt : f.opt = true)
+    (hff : ∀ j, j < τ → FailFast I dec j)
+    (hsane : fieldSane env I τ f = true) (hopt : f.opt = true)
     (tail : List Tag) (hs : Safe (fieldConfus env I f) tail) :
     decodeField env dec f tail = .ok (none, tail) := by
   obtain ⟨ref, ctx, opt⟩ := f
@@ -46,9 +53,27 @@ theorem field_absent (τ : Nat) (f : Field)
         simp only [hcl, ↓reduceIte]
         unfold fieldConfus fieldFirst at h
         unfold fieldSane at hsane
-        unfold fieldSup at hsup
-        cases hk : kindOf env ref <;> cases ctx <;>
-          simp_all [Pat.matches]
+        cases hk : kindOf env ref with
+        | struct j =>
+          cases ctx with
+          | some c => simp_all [Pat.matches]
+          | none =>
+            -- try / restore: the structure inside refuses the tag with a caught error
+            rw [hk] at hsane h
+            simp only [Bool.and_eq_true, decide_eq_true_eq, Bool.not_eq_eq_eq_not, Bool.not_true,
+              Bool.not_true, Bool.or_eq_true, Bool.true_and] at hsane
+            have hffj : (look I j).ff = true := by
+              rcases hsane.2 with h' | h'
+              · simp at h'
+              · exact h'
+            obtain ⟨e, he, hee⟩ := hff j hsane.1.1 hffj t r hcl
+              (fun p hp => h p (by simp [hp]))
+            simp [he, hee]
+        | prim a => cases ctx <;> simp_all [Pat.matches]
+        | anyAtomic => cases ctx <;> simp_all [Pat.matches]
+        | seqOf j => cases ctx <;> simp_all [Pat.matches]
+        | listOf j => cases ctx <;> simp_all [Pat.matches]
+        | bad => cases ctx <;> simp_all [Pat.matches]
 
 /-- `expectClose` right after the content -/
 theorem expectClose_closeTag (c : Nat) (tail : List Tag) : expectClose c (closeTag c :: tail) = .ok tail := by
@@ -128,7 +153,7 @@ theorem field_present_ty (τ : Nat) (f : Field) (j : Nat)
     (hk : kindOf env f.ref = .seqOf j ∨ kindOf env f.ref = .listOf j ∨ kindOf env f.ref = .struct j)
     (hgood : Good I enc dec conf j)
     (hstop : kindOf env f.ref ≠ .struct j → ListStop dec j)
-    (hsane : fieldSane env I τ f = true) (hsup : fieldSup env I f = true)
+    (hsane : fieldSane env I τ f = true)
     (v : Val) (hc : conformsRef env conf f.ref v = true) :
     ∃ ts, encodeField env enc f (some v) = .ok ts ∧
       HeadOK (fieldFirst env I f) (fieldNullable env I f) ts ∧
@@ -152,25 +177,32 @@ theorem field_present_ty (τ : Nat) (f : Field) (j : Nat)
       rcases hk with hk | hk | hk <;>
         simp [decodeField, hk, hne, isOpen_openTag, hdec, expectClose_closeTag]
   | none =>
-    have hopt : opt = false := by
-      unfold fieldSup at hsup
-      rcases hk with hk | hk | hk <;> rw [hk] at hsup <;> simp at hsup <;> exact hsup.2
-    subst hopt
-    have hconfus : fieldConfus env I ⟨ref, none, false⟩ = (look I j).confus := by
+    -- a list without context cannot be optional
+    have hopt : kindOf env ref ≠ .struct j → opt = false := by
+      intro hns
+      unfold fieldSane at hsane
+      rcases hk with hk | hk | hk
+      · rw [hk] at hsane; simp at hsane; exact hsane.2
+      · rw [hk] at hsane; simp at hsane; exact hsane.2
+      · exact absurd hk hns
+    have hconfus : ∀ p ∈ (look I j).confus, p ∈ fieldConfus env I ⟨ref, none, opt⟩ := by
+      intro p hp
       unfold fieldConfus
-      rcases hk with hk | hk | hk <;> simp [hk]
+      rcases hk with hk | hk | hk <;> simp [hk, hp]
     refine ⟨ts, ?_, ?_, ?_⟩
     · rcases hk with hk | hk | hk <;> simp [encodeField, hk, he, wrap]
-    · have h1 : fieldFirst env I ⟨ref, none, false⟩ = (look I j).first := by
+    · have h1 : fieldFirst env I ⟨ref, none, opt⟩ = (look I j).first := by
         unfold fieldFirst
         rcases hk with hk | hk | hk <;> simp [hk]
-      have h2 : fieldNullable env I ⟨ref, none, false⟩ = (look I j).nullable := by
+      have h2 : fieldNullable env I ⟨ref, none, opt⟩ = (opt || (look I j).nullable) := by
         unfold fieldNullable
         rcases hk with hk | hk | hk <;> simp [hk]
-      rw [h1, h2]; exact hh
+      rw [h1, h2]
+      cases ts with
+      | nil => simp only [HeadOK] at hh ⊢; simp [hh]
+      | cons t r => exact hh
     · intro tail hs
-      rw [hconfus] at hs
-      have hdec := hrt tail hs
+      have hdec := hrt tail (Safe.mono hs hconfus)
       -- a structure that may be empty is excluded by `fieldSane`
       have hstruct : kindOf env ref = .struct j → ts ≠ [] := by
         intro hk' hts
@@ -187,9 +219,11 @@ theorem field_present_ty (τ : Nat) (f : Field) (j : Nat)
         rcases hk with hk | hk | hk
         · have := hstop (by simp [hk]) [] v [] (Or.inl rfl) (by simpa using hdec)
           subst this
+          have := hopt (by simp [hk]); subst this
           simp [decodeField, hk]
         · have := hstop (by simp [hk]) [] v [] (Or.inl rfl) (by simpa using hdec)
           subst this
+          have := hopt (by simp [hk]); subst this
           simp [decodeField, hk]
         · exact absurd rfl (hstruct hk)
       | cons t r =>
@@ -209,29 +243,30 @@ theorem field_present_ty (τ : Nat) (f : Field) (j : Nat)
           rcases hk with hk | hk | hk
           · have := hstop (by simp [hk]) (t :: r) v (t :: r) (Or.inr ⟨t, r, rfl, hcl⟩) hdec
             subst this
+            have := hopt (by simp [hk]); subst this
             simp [decodeField, hk, hcl]
           · have := hstop (by simp [hk]) (t :: r) v (t :: r) (Or.inr ⟨t, r, rfl, hcl⟩) hdec
             subst this
+            have := hopt (by simp [hk]); subst this
             simp [decodeField, hk, hcl]
           · exact absurd rfl (hstruct hk)
         · rcases hk with hk | hk | hk <;> simp [decodeField, hk, hcl, hdec]
 
-/-- the references of a sane, supported element point below `τ` into the supported fragment -/
+/-- the references of a sane element point below `τ` -/
 theorem field_ref_ok (τ : Nat) (f : Field) (j : Nat)
     (hk : kindOf env f.ref = .seqOf j ∨ kindOf env f.ref = .listOf j ∨ kindOf env f.ref = .struct j)
-    (hsane : fieldSane env I τ f = true) (hsup : fieldSup env I f = true) :
-    j < τ ∧ (look I j).sup = true := by
+    (hsane : fieldSane env I τ f = true) : j < τ := by
   obtain ⟨ref, ctx, opt⟩ := f
   unfold fieldSane at hsane
-  unfold fieldSup at hsup
   simp only at hk
-  rcases hk with hk | hk | hk <;> rw [hk] at hsane hsup <;> cases ctx <;> simp_all
+  rcases hk with hk | hk | hk <;> rw [hk] at hsane <;> cases ctx <;> simp_all
 
 /-- ONE ELEMENT: encode, then decode in front of anything satisfying the follow condition -/
 theorem goodField (τ : Nat) (f : Field)
-    (hgood : ∀ j, j < τ → (look I j).sup = true → Good I enc dec conf j)
+    (hgood : ∀ j, j < τ → Good I enc dec conf j)
+    (hff : ∀ j, j < τ → FailFast I dec j)
     (hstop : ∀ r j, (kindOf env r = .seqOf j ∨ kindOf env r = .listOf j) → ListStop dec j)
-    (hsane : fieldSane env I τ f = true) (hsup : fieldSup env I f = true)
+    (hsane : fieldSane env I τ f = true)
     (ov : Option Val) (hc : confField env conf f ov = true) :
     ∃ ts, encodeField env enc f ov = .ok ts ∧
       HeadOK (fieldFirst env I f) (fieldNullable env I f) ts ∧
@@ -241,7 +276,7 @@ theorem goodField (τ : Nat) (f : Field)
     simp only [confField] at hc
     refine ⟨[], by simp [encodeField, hc], by simp [HeadOK, fieldNullable, hc], ?_⟩
     intro tail hs
-    exact field_absent env I dec τ f hsane hsup hc tail hs
+    exact field_absent env I dec τ f hff hsane hc tail hs
   | some v =>
     simp only [confField] at hc
     cases hk : kindOf env f.ref with
@@ -252,17 +287,17 @@ theorem goodField (τ : Nat) (f : Field)
       obtain ⟨ts, h1, h2, h3⟩ := field_present_atom env I enc dec conf τ f hk hsane v hc
       exact ⟨ts, h1, h2, fun tail _ => h3 tail⟩
     | seqOf j =>
-      have hr := field_ref_ok env I τ f j (Or.inl hk) hsane hsup
-      exact field_present_ty env I enc dec conf τ f j (Or.inl hk) (hgood j hr.1 hr.2)
-        (fun _ => hstop f.ref j (Or.inl hk)) hsane hsup v hc
+      have hr := field_ref_ok env I τ f j (Or.inl hk) hsane
+      exact field_present_ty env I enc dec conf τ f j (Or.inl hk) (hgood j hr)
+        (fun _ => hstop f.ref j (Or.inl hk)) hsane v hc
     | listOf j =>
-      have hr := field_ref_ok env I τ f j (Or.inr (Or.inl hk)) hsane hsup
-      exact field_present_ty env I enc dec conf τ f j (Or.inr (Or.inl hk)) (hgood j hr.1 hr.2)
-        (fun _ => hstop f.ref j (Or.inr hk)) hsane hsup v hc
+      have hr := field_ref_ok env I τ f j (Or.inr (Or.inl hk)) hsane
+      exact field_present_ty env I enc dec conf τ f j (Or.inr (Or.inl hk)) (hgood j hr)
+        (fun _ => hstop f.ref j (Or.inr hk)) hsane v hc
     | struct j =>
-      have hr := field_ref_ok env I τ f j (Or.inr (Or.inr hk)) hsane hsup
-      exact field_present_ty env I enc dec conf τ f j (Or.inr (Or.inr hk)) (hgood j hr.1 hr.2)
-        (fun h => absurd hk h) hsane hsup v hc
+      have hr := field_ref_ok env I τ f j (Or.inr (Or.inr hk)) hsane
+      exact field_present_ty env I enc dec conf τ f j (Or.inr (Or.inr hk)) (hgood j hr)
+        (fun h => absurd hk h) hsane v hc
     | bad =>
       unfold fieldSane at hsane
       rw [hk] at hsane
